@@ -7,7 +7,14 @@ Import ListNotations.
 Open Scope Q_scope.
 
 Definition sof {A} (r : outcome A) : st := match r with Done s _ => s | Fail s _ => s end.
-Definition G (s : st) : Prop := acct_good (s_acct s).
+
+(* the argument is generic in the account predicate: any predicate that AccountBalances.update preserves
+   (or establishes) holds in every reachable state *)
+Section Generic.
+Variable GA : acct -> Prop.
+Hypothesis GA_update : forall extra a db dh dbo a', GA a -> acct_update extra a db dh dbo = Ok a' -> GA a'.
+
+Definition G (s : st) : Prop := GA (s_acct s).
 Definition gp {A} (r : outcome A) : Prop := G (sof r).
 
 Lemma gp_obind A B (r : outcome A) (f : st -> A -> outcome B) :
@@ -20,7 +27,7 @@ Proof. destruct r; unfold gp; cbn [lift sof]; auto. Qed.
 Lemma gp_upd c s db dh dbo : G s -> gp (upd_acct c s db dh dbo).
 Proof.
   intros H. unfold upd_acct. destruct (acct_update _ _ _ _ _) eqn:E; unfold gp; cbn [sof].
-  - unfold G. cbn [set_acct s_acct]. eapply acct_update_good. exact E.
+  - unfold G. cbn [set_acct s_acct]. eapply GA_update; [exact H | exact E].
   - exact H.
 Qed.
 
@@ -201,7 +208,18 @@ Proof.
   apply IH. apply step_G. exact H.
 Qed.
 
+End Generic.
+
+(* instance: NonZero + ValidHold *)
+Lemma acct_good_update extra a db dh dbo a' : acct_good a -> acct_update extra a db dh dbo = Ok a' -> acct_good a'.
+Proof. intros _ H. eapply acct_update_good. exact H. Qed.
+
+Theorem step_good c s o : acct_good (s_acct s) -> acct_good (s_acct (fst (step c s o))).
+Proof. exact (step_G acct_good acct_good_update c s o). Qed.
+
 Theorem reachable_good c initial ops :
   (forall kv, In kv initial -> 0 <= snd kv) ->
   acct_good (s_acct (run c (init_st initial) ops)).
-Proof. intros Hpos. apply run_G. unfold G, init_st. cbn [s_acct]. apply init_acct_good. exact Hpos. Qed.
+Proof.
+  intros Hpos. apply (run_G acct_good acct_good_update). unfold G, init_st. cbn [s_acct]. apply init_acct_good. exact Hpos.
+Qed.
